@@ -4,6 +4,7 @@ use ckb_types::{
     packed::LightClientMessage,
     prelude::*,
     utilities::merkle_mountain_range::VerifiableHeader,
+    U256,
 };
 
 use super::{Status, StatusCode};
@@ -38,7 +39,7 @@ pub(crate) trait HeaderUtils {
 
 impl HeaderUtils for HeaderView {
     fn is_parent_of(&self, child: &Self) -> bool {
-        self.number() + 1 == child.number()
+        self.number().checked_add(1) == Some(child.number())
             && (self.is_genesis() || child.epoch().is_successor_of(self.epoch()))
             && self.hash() == child.parent_hash()
     }
@@ -49,10 +50,16 @@ impl HeaderUtils for HeaderView {
 // Ref: https://github.com/nervosnetwork/ckb/blob/v0.112.1/util/types/src/utilities/merkle_mountain_range.rs#L212-L241
 pub(crate) trait VerifiableHeaderPatch {
     fn patched_is_valid(&self, mmr_activated_epoch_number: EpochNumber) -> bool;
+
+    fn is_total_difficulty_valid(&self) -> bool;
 }
 
 impl VerifiableHeaderPatch for VerifiableHeader {
     fn patched_is_valid(&self, mmr_activated_epoch_number: EpochNumber) -> bool {
+        // The total difficulty (parent total difficulty + block difficulty) must not overflow.
+        if !self.is_total_difficulty_valid() {
+            return false;
+        }
         let mmr_activated_epoch = EpochNumberWithFraction::new(mmr_activated_epoch_number, 0, 1);
         let has_chain_root = self.header().epoch() > mmr_activated_epoch;
         if has_chain_root {
@@ -82,5 +89,12 @@ impl VerifiableHeaderPatch for VerifiableHeader {
         let expected_extra_hash = extra_hash_view.extra_hash();
         let actual_extra_hash = self.header().extra_hash();
         expected_extra_hash == actual_extra_hash
+    }
+
+    fn is_total_difficulty_valid(&self) -> bool {
+        let parent_total_difficulty: U256 = self.parent_chain_root().total_difficulty().unpack();
+        parent_total_difficulty
+            .checked_add(&self.header().difficulty())
+            .is_some()
     }
 }
